@@ -100,5 +100,39 @@ for sharded in (False, True):
       except Exception as ex:  # pylint: disable=broad-except
         add("distributed_shampoo.update", [name], f"raised {type(ex).__name__}: {str(ex)[:200]}")
 
+# singular (rank-deficient) statistics with finite gradients of moderate magnitude: a thin parameter accumulates one
+# outer product per step, so its statistics stay singular; absolute and tiny relative ridge.
+for eigh in (False, True):
+  for rel, eps in ((False, 1e-6), (True, 1e-8), (True, 1e-6)):
+    cases += 1
+    name = f"singular-statistics eigh={eigh} relative_eps={rel} eps={eps}"
+    try:
+      r2 = np.random.RandomState(seed)
+      params = {"a": jnp.asarray(r2.randn(16, 2).astype(np.float32)), "b": jnp.asarray(r2.randn(24).astype(np.float32))}
+      opt = ds.distributed_shampoo(0.1, block_size=32, eigh=eigh, inverse_failure_threshold=0.1, preconditioning_compute_steps=1,
+                                   relative_matrix_epsilon=rel, matrix_epsilon=eps)
+      st = opt.init(params)
+      upd = jax.jit(opt.update)
+      prev = precs(st, False)
+      for step in range(6):
+        scale = [1.0, 3.0, 10.0, 30.0, 100.0, 1000.0][step]
+        g = jax.tree.map(lambda p: jnp.asarray(scale * r2.randn(*p.shape).astype(np.float32)), params)
+        u, st = upd(g, st, params)
+        cur, e = precs(st, False), errs(st, False)
+        for k, (a, b) in enumerate(zip(prev, cur)):
+          if not np.all(np.isfinite(b)):
+            add("distributed_shampoo.update", [name, f"step {step}", k], f"a stored preconditioner is not finite (reported error {e[k]})")
+            raise StopIteration
+          if a.tobytes() != b.tobytes() and not (np.isfinite(e[k]) and e[k] < 0.1):
+            add("distributed_shampoo.update", [name, f"step {step}", k], f"preconditioner replaced although error={e[k]}")
+        if not all(np.all(np.isfinite(np.asarray(x))) for x in jax.tree.leaves(u)):
+          add("distributed_shampoo.update", [name, f"step {step}"], f"update not finite for a finite gradient of scale {scale}")
+          raise StopIteration
+        prev = cur
+    except StopIteration:
+      pass
+    except Exception as ex:  # pylint: disable=broad-except
+      add("distributed_shampoo.update", [name], f"raised {type(ex).__name__}: {str(ex)[:200]}")
+
 print(json.dumps({"cases": cases, "violations": viol,
-                  "bound": f"tier={tier}: {{replicated, sharded}} x 3 thresholds x {{Newton, eigh}} x a 7-step history with NaN/Inf/huge/zero/tiny gradients, seed {seed}"}))
+                  "bound": f"tier={tier}: {{replicated, sharded}} x 3 thresholds x {{Newton, eigh}} x a 7-step history with NaN/Inf/huge/zero/tiny gradients; {{Newton, eigh}} x 3 ridge settings x 6 steps of singular statistics; seed {seed}"}))
